@@ -37,9 +37,9 @@ Conv/Model.vos Conv/Model.vok Conv/Model.required_vos: Conv/Model.v
 Conv/Proofs.vo Conv/Proofs.glob Conv/Proofs.v.beautified Conv/Proofs.required_vo: Conv/Proofs.v Conv/Model.vo
 Conv/Proofs.vio: Conv/Proofs.v Conv/Model.vio
 Conv/Proofs.vos Conv/Proofs.vok Conv/Proofs.required_vos: Conv/Proofs.v Conv/Model.vos
-Directors/Cases.vo Directors/Cases.glob Directors/Cases.v.beautified Directors/Cases.required_vo: Directors/Cases.v Directors/Model.vo
-Directors/Cases.vio: Directors/Cases.v Directors/Model.vio
-Directors/Cases.vos Directors/Cases.vok Directors/Cases.required_vos: Directors/Cases.v Directors/Model.vos
+Directors/Cases.vo Directors/Cases.glob Directors/Cases.v.beautified Directors/Cases.required_vo: Directors/Cases.v Generated/C03_ErrorClasses.vo Directors/Model.vo
+Directors/Cases.vio: Directors/Cases.v Generated/C03_ErrorClasses.vio Directors/Model.vio
+Directors/Cases.vos Directors/Cases.vok Directors/Cases.required_vos: Directors/Cases.v Generated/C03_ErrorClasses.vos Directors/Model.vos
 Directors/Model.vo Directors/Model.glob Directors/Model.v.beautified Directors/Model.required_vo: Directors/Model.v Generated/C03_ErrorClasses.vo
 Directors/Model.vio: Directors/Model.v Generated/C03_ErrorClasses.vio
 Directors/Model.vos Directors/Model.vok Directors/Model.required_vos: Directors/Model.v Generated/C03_ErrorClasses.vos
@@ -133,12 +133,18 @@ Mro/Model.vos Mro/Model.vok Mro/Model.required_vos: Mro/Model.v
 Mro/Proofs.vo Mro/Proofs.glob Mro/Proofs.v.beautified Mro/Proofs.required_vo: Mro/Proofs.v Mro/Model.vo
 Mro/Proofs.vio: Mro/Proofs.v Mro/Model.vio
 Mro/Proofs.vos Mro/Proofs.vok Mro/Proofs.required_vos: Mro/Proofs.v Mro/Model.vos
+Ops/Closed.vo Ops/Closed.glob Ops/Closed.v.beautified Ops/Closed.required_vo: Ops/Closed.v Ops/Model.vo Generated/C14_Builtins.vo Ops/Proofs.vo
+Ops/Closed.vio: Ops/Closed.v Ops/Model.vio Generated/C14_Builtins.vio Ops/Proofs.vio
+Ops/Closed.vos Ops/Closed.vok Ops/Closed.required_vos: Ops/Closed.v Ops/Model.vos Generated/C14_Builtins.vos Ops/Proofs.vos
 Ops/Model.vo Ops/Model.glob Ops/Model.v.beautified Ops/Model.required_vo: Ops/Model.v 
 Ops/Model.vio: Ops/Model.v 
 Ops/Model.vos Ops/Model.vok Ops/Model.required_vos: Ops/Model.v 
-Ops/Proofs.vo Ops/Proofs.glob Ops/Proofs.v.beautified Ops/Proofs.required_vo: Ops/Proofs.v Ops/Model.vo Generated/C14_Builtins.vo
-Ops/Proofs.vio: Ops/Proofs.v Ops/Model.vio Generated/C14_Builtins.vio
-Ops/Proofs.vos Ops/Proofs.vok Ops/Proofs.required_vos: Ops/Proofs.v Ops/Model.vos Generated/C14_Builtins.vos
+Ops/Proofs.vo Ops/Proofs.glob Ops/Proofs.v.beautified Ops/Proofs.required_vo: Ops/Proofs.v Ops/Model.vo
+Ops/Proofs.vio: Ops/Proofs.v Ops/Model.vio
+Ops/Proofs.vos Ops/Proofs.vok Ops/Proofs.required_vos: Ops/Proofs.v Ops/Model.vos
+Opt/Idem.vo Opt/Idem.glob Opt/Idem.v.beautified Opt/Idem.required_vo: Opt/Idem.v Opt/Syntax.vo Generated/C11_Passes.vo Opt/Model.vo Opt/Spec.vo Opt/Proofs.vo
+Opt/Idem.vio: Opt/Idem.v Opt/Syntax.vio Generated/C11_Passes.vio Opt/Model.vio Opt/Spec.vio Opt/Proofs.vio
+Opt/Idem.vos Opt/Idem.vok Opt/Idem.required_vos: Opt/Idem.v Opt/Syntax.vos Generated/C11_Passes.vos Opt/Model.vos Opt/Spec.vos Opt/Proofs.vos
 Opt/Model.vo Opt/Model.glob Opt/Model.v.beautified Opt/Model.required_vo: Opt/Model.v Opt/Syntax.vo Generated/C11_Passes.vo
 Opt/Model.vio: Opt/Model.v Opt/Syntax.vio Generated/C11_Passes.vio
 Opt/Model.vos Opt/Model.vok Opt/Model.required_vos: Opt/Model.v Opt/Syntax.vos Generated/C11_Passes.vos
@@ -148,6 +154,9 @@ Opt/Proofs.vos Opt/Proofs.vok Opt/Proofs.required_vos: Opt/Proofs.v Opt/Syntax.v
 Opt/Spec.vo Opt/Spec.glob Opt/Spec.v.beautified Opt/Spec.required_vo: Opt/Spec.v Opt/Syntax.vo Generated/C11_Passes.vo Opt/Model.vo
 Opt/Spec.vio: Opt/Spec.v Opt/Syntax.vio Generated/C11_Passes.vio Opt/Model.vio
 Opt/Spec.vos Opt/Spec.vok Opt/Spec.required_vos: Opt/Spec.v Opt/Syntax.vos Generated/C11_Passes.vos Opt/Model.vos
+Opt/Stable.vo Opt/Stable.glob Opt/Stable.v.beautified Opt/Stable.required_vo: Opt/Stable.v Opt/Syntax.vo Generated/C11_Passes.vo Opt/Model.vo Opt/Spec.vo Opt/Proofs.vo
+Opt/Stable.vio: Opt/Stable.v Opt/Syntax.vio Generated/C11_Passes.vio Opt/Model.vio Opt/Spec.vio Opt/Proofs.vio
+Opt/Stable.vos Opt/Stable.vok Opt/Stable.required_vos: Opt/Stable.v Opt/Syntax.vos Generated/C11_Passes.vos Opt/Model.vos Opt/Spec.vos Opt/Proofs.vos
 Opt/Syntax.vo Opt/Syntax.glob Opt/Syntax.v.beautified Opt/Syntax.required_vo: Opt/Syntax.v 
 Opt/Syntax.vio: Opt/Syntax.v 
 Opt/Syntax.vos Opt/Syntax.vok Opt/Syntax.required_vos: Opt/Syntax.v 
@@ -157,6 +166,9 @@ Plan/Model.vos Plan/Model.vok Plan/Model.required_vos: Plan/Model.v
 Plan/Proofs.vo Plan/Proofs.glob Plan/Proofs.v.beautified Plan/Proofs.required_vo: Plan/Proofs.v Plan/Model.vo
 Plan/Proofs.vio: Plan/Proofs.v Plan/Model.vio
 Plan/Proofs.vos Plan/Proofs.vok Plan/Proofs.required_vos: Plan/Proofs.v Plan/Model.vos
+Plan/StmtProofs.vo Plan/StmtProofs.glob Plan/StmtProofs.v.beautified Plan/StmtProofs.required_vo: Plan/StmtProofs.v Plan/Model.vo Plan/Proofs.vo
+Plan/StmtProofs.vio: Plan/StmtProofs.v Plan/Model.vio Plan/Proofs.vio
+Plan/StmtProofs.vos Plan/StmtProofs.vok Plan/StmtProofs.required_vos: Plan/StmtProofs.v Plan/Model.vos Plan/Proofs.vos
 Print/Model.vo Print/Model.glob Print/Model.v.beautified Print/Model.required_vo: Print/Model.v 
 Print/Model.vio: Print/Model.v 
 Print/Model.vos Print/Model.vok Print/Model.required_vos: Print/Model.v 
@@ -169,9 +181,15 @@ Props/C02.vos Props/C02.vok Props/C02.required_vos: Props/C02.v Match/Model.vos 
 Props/C03.vo Props/C03.glob Props/C03.v.beautified Props/C03.required_vo: Props/C03.v Generated/C03_ErrorClasses.vo Directors/Model.vo Directors/Spec.vo Directors/Proofs.vo
 Props/C03.vio: Props/C03.v Generated/C03_ErrorClasses.vio Directors/Model.vio Directors/Spec.vio Directors/Proofs.vio
 Props/C03.vos Props/C03.vok Props/C03.required_vos: Props/C03.v Generated/C03_ErrorClasses.vos Directors/Model.vos Directors/Spec.vos Directors/Proofs.vos
-Props/C07.vo Props/C07.glob Props/C07.v.beautified Props/C07.required_vo: Props/C07.v Typegraph/Graph.vo Typegraph/Solver.vo
-Props/C07.vio: Props/C07.v Typegraph/Graph.vio Typegraph/Solver.vio
-Props/C07.vos Props/C07.vok Props/C07.required_vos: Props/C07.v Typegraph/Graph.vos Typegraph/Solver.vos
+Props/C04.vo Props/C04.glob Props/C04.v.beautified Props/C04.required_vo: Props/C04.v Canon/Model.vo Canon/SortLemmas.vo Canon/Proofs.vo Canon/ErrorProofs.vo
+Props/C04.vio: Props/C04.v Canon/Model.vio Canon/SortLemmas.vio Canon/Proofs.vio Canon/ErrorProofs.vio
+Props/C04.vos Props/C04.vok Props/C04.required_vos: Props/C04.v Canon/Model.vos Canon/SortLemmas.vos Canon/Proofs.vos Canon/ErrorProofs.vos
+Props/C06.vo Props/C06.glob Props/C06.v.beautified Props/C06.required_vo: Props/C06.v Conv/Model.vo Conv/Proofs.vo
+Props/C06.vio: Props/C06.v Conv/Model.vio Conv/Proofs.vio
+Props/C06.vos Props/C06.vok Props/C06.required_vos: Props/C06.v Conv/Model.vos Conv/Proofs.vos
+Props/C07.vo Props/C07.glob Props/C07.v.beautified Props/C07.required_vo: Props/C07.v Typegraph/Graph.vo Typegraph/Solver.vo Typegraph/Spec.vo Typegraph/SetLemmas.vo Typegraph/RfgProofs.vo Typegraph/PathProofs.vo Typegraph/SearchProofs.vo Typegraph/SolverProofs.vo Typegraph/ExactProofs.vo
+Props/C07.vio: Props/C07.v Typegraph/Graph.vio Typegraph/Solver.vio Typegraph/Spec.vio Typegraph/SetLemmas.vio Typegraph/RfgProofs.vio Typegraph/PathProofs.vio Typegraph/SearchProofs.vio Typegraph/SolverProofs.vio Typegraph/ExactProofs.vio
+Props/C07.vos Props/C07.vok Props/C07.required_vos: Props/C07.v Typegraph/Graph.vos Typegraph/Solver.vos Typegraph/Spec.vos Typegraph/SetLemmas.vos Typegraph/RfgProofs.vos Typegraph/PathProofs.vos Typegraph/SearchProofs.vos Typegraph/SolverProofs.vos Typegraph/ExactProofs.vos
 Props/C08.vo Props/C08.glob Props/C08.v.beautified Props/C08.required_vo: Props/C08.v Typegraph/History.vo Typegraph/HistoryProofs.vo Generated/C08_Invalidation.vo
 Props/C08.vio: Props/C08.v Typegraph/History.vio Typegraph/HistoryProofs.vio Generated/C08_Invalidation.vio
 Props/C08.vos Props/C08.vok Props/C08.required_vos: Props/C08.v Typegraph/History.vos Typegraph/HistoryProofs.vos Generated/C08_Invalidation.vos
@@ -181,12 +199,18 @@ Props/C09.vos Props/C09.vok Props/C09.required_vos: Props/C09.v Typegraph/Reach.
 Props/C10.vo Props/C10.glob Props/C10.v.beautified Props/C10.required_vo: Props/C10.v Mro/Model.vo Mro/Proofs.vo
 Props/C10.vio: Props/C10.v Mro/Model.vio Mro/Proofs.vio
 Props/C10.vos Props/C10.vok Props/C10.required_vos: Props/C10.v Mro/Model.vos Mro/Proofs.vos
+Props/C11.vo Props/C11.glob Props/C11.v.beautified Props/C11.required_vo: Props/C11.v Opt/Syntax.vo Generated/C11_Passes.vo Opt/Model.vo Opt/Spec.vo Opt/Proofs.vo Opt/Idem.vo Opt/Stable.vo
+Props/C11.vio: Props/C11.v Opt/Syntax.vio Generated/C11_Passes.vio Opt/Model.vio Opt/Spec.vio Opt/Proofs.vio Opt/Idem.vio Opt/Stable.vio
+Props/C11.vos Props/C11.vok Props/C11.required_vos: Props/C11.v Opt/Syntax.vos Generated/C11_Passes.vos Opt/Model.vos Opt/Spec.vos Opt/Proofs.vos Opt/Idem.vos Opt/Stable.vos
+Props/C12.vo Props/C12.glob Props/C12.v.beautified Props/C12.required_vo: Props/C12.v Serial/Model.vo Serial/Proofs.vo Serial/HashProofs.vo Serial/Grammar.vo Serial/GrammarProofs.vo Generated/C12_Schema.vo Serial/SchemaFacts.vo
+Props/C12.vio: Props/C12.v Serial/Model.vio Serial/Proofs.vio Serial/HashProofs.vio Serial/Grammar.vio Serial/GrammarProofs.vio Generated/C12_Schema.vio Serial/SchemaFacts.vio
+Props/C12.vos Props/C12.vok Props/C12.required_vos: Props/C12.v Serial/Model.vos Serial/Proofs.vos Serial/HashProofs.vos Serial/Grammar.vos Serial/GrammarProofs.vos Generated/C12_Schema.vos Serial/SchemaFacts.vos
 Props/C13.vo Props/C13.glob Props/C13.v.beautified Props/C13.required_vo: Props/C13.v Bind/Model.vo Bind/Proofs.vo
 Props/C13.vio: Props/C13.v Bind/Model.vio Bind/Proofs.vio
 Props/C13.vos Props/C13.vok Props/C13.required_vos: Props/C13.v Bind/Model.vos Bind/Proofs.vos
-Props/C14.vo Props/C14.glob Props/C14.v.beautified Props/C14.required_vo: Props/C14.v Ops/Model.vo Generated/C14_Builtins.vo Ops/Proofs.vo
-Props/C14.vio: Props/C14.v Ops/Model.vio Generated/C14_Builtins.vio Ops/Proofs.vio
-Props/C14.vos Props/C14.vok Props/C14.required_vos: Props/C14.v Ops/Model.vos Generated/C14_Builtins.vos Ops/Proofs.vos
+Props/C14.vo Props/C14.glob Props/C14.v.beautified Props/C14.required_vo: Props/C14.v Ops/Model.vo Generated/C14_Builtins.vo Ops/Proofs.vo Ops/Closed.vo
+Props/C14.vio: Props/C14.v Ops/Model.vio Generated/C14_Builtins.vio Ops/Proofs.vio Ops/Closed.vio
+Props/C14.vos Props/C14.vok Props/C14.required_vos: Props/C14.v Ops/Model.vos Generated/C14_Builtins.vos Ops/Proofs.vos Ops/Closed.vos
 Props/C15.vo Props/C15.glob Props/C15.v.beautified Props/C15.required_vo: Props/C15.v Io/Model.vo Generated/C15_Handlers.vo Io/Proofs.vo Io/LineProofs.vo
 Props/C15.vio: Props/C15.v Io/Model.vio Generated/C15_Handlers.vio Io/Proofs.vio Io/LineProofs.vio
 Props/C15.vos Props/C15.vok Props/C15.required_vos: Props/C15.v Io/Model.vos Generated/C15_Handlers.vos Io/Proofs.vos Io/LineProofs.vos
@@ -202,6 +226,9 @@ Props/C18.vos Props/C18.vok Props/C18.required_vos: Props/C18.v Flow/Model.vos F
 Props/C19.vo Props/C19.glob Props/C19.v.beautified Props/C19.required_vo: Props/C19.v Plan/Model.vo Plan/Proofs.vo
 Props/C19.vio: Props/C19.v Plan/Model.vio Plan/Proofs.vio
 Props/C19.vos Props/C19.vok Props/C19.required_vos: Props/C19.v Plan/Model.vos Plan/Proofs.vos
+Props/C20.vo Props/C20.glob Props/C20.v.beautified Props/C20.required_vo: Props/C20.v Merge/Model.vo Merge/Proofs.vo
+Props/C20.vio: Props/C20.v Merge/Model.vio Merge/Proofs.vio
+Props/C20.vos Props/C20.vok Props/C20.required_vos: Props/C20.v Merge/Model.vos Merge/Proofs.vos
 Serial/Grammar.vo Serial/Grammar.glob Serial/Grammar.v.beautified Serial/Grammar.required_vo: Serial/Grammar.v Serial/Model.vo
 Serial/Grammar.vio: Serial/Grammar.v Serial/Model.vio
 Serial/Grammar.vos Serial/Grammar.vok Serial/Grammar.required_vos: Serial/Grammar.v Serial/Model.vos
@@ -217,6 +244,12 @@ Serial/Model.vos Serial/Model.vok Serial/Model.required_vos: Serial/Model.v
 Serial/Proofs.vo Serial/Proofs.glob Serial/Proofs.v.beautified Serial/Proofs.required_vo: Serial/Proofs.v Serial/Model.vo
 Serial/Proofs.vio: Serial/Proofs.v Serial/Model.vio
 Serial/Proofs.vos Serial/Proofs.vok Serial/Proofs.required_vos: Serial/Proofs.v Serial/Model.vos
+Serial/SchemaFacts.vo Serial/SchemaFacts.glob Serial/SchemaFacts.v.beautified Serial/SchemaFacts.required_vo: Serial/SchemaFacts.v Serial/Model.vo Serial/Proofs.vo Serial/HashProofs.vo Serial/Grammar.vo Serial/GrammarProofs.vo Generated/C12_Schema.vo
+Serial/SchemaFacts.vio: Serial/SchemaFacts.v Serial/Model.vio Serial/Proofs.vio Serial/HashProofs.vio Serial/Grammar.vio Serial/GrammarProofs.vio Generated/C12_Schema.vio
+Serial/SchemaFacts.vos Serial/SchemaFacts.vok Serial/SchemaFacts.required_vos: Serial/SchemaFacts.v Serial/Model.vos Serial/Proofs.vos Serial/HashProofs.vos Serial/Grammar.vos Serial/GrammarProofs.vos Generated/C12_Schema.vos
+Typegraph/ExactProofs.vo Typegraph/ExactProofs.glob Typegraph/ExactProofs.v.beautified Typegraph/ExactProofs.required_vo: Typegraph/ExactProofs.v Typegraph/Graph.vo Typegraph/Solver.vo Typegraph/Spec.vo Typegraph/SetLemmas.vo Typegraph/RfgProofs.vo Typegraph/PathProofs.vo Typegraph/SearchProofs.vo Typegraph/SolverProofs.vo
+Typegraph/ExactProofs.vio: Typegraph/ExactProofs.v Typegraph/Graph.vio Typegraph/Solver.vio Typegraph/Spec.vio Typegraph/SetLemmas.vio Typegraph/RfgProofs.vio Typegraph/PathProofs.vio Typegraph/SearchProofs.vio Typegraph/SolverProofs.vio
+Typegraph/ExactProofs.vos Typegraph/ExactProofs.vok Typegraph/ExactProofs.required_vos: Typegraph/ExactProofs.v Typegraph/Graph.vos Typegraph/Solver.vos Typegraph/Spec.vos Typegraph/SetLemmas.vos Typegraph/RfgProofs.vos Typegraph/PathProofs.vos Typegraph/SearchProofs.vos Typegraph/SolverProofs.vos
 Typegraph/Graph.vo Typegraph/Graph.glob Typegraph/Graph.v.beautified Typegraph/Graph.required_vo: Typegraph/Graph.v 
 Typegraph/Graph.vio: Typegraph/Graph.v 
 Typegraph/Graph.vos Typegraph/Graph.vok Typegraph/Graph.required_vos: Typegraph/Graph.v 
@@ -247,6 +280,9 @@ Typegraph/SetLemmas.vos Typegraph/SetLemmas.vok Typegraph/SetLemmas.required_vos
 Typegraph/Solver.vo Typegraph/Solver.glob Typegraph/Solver.v.beautified Typegraph/Solver.required_vo: Typegraph/Solver.v Typegraph/Graph.vo
 Typegraph/Solver.vio: Typegraph/Solver.v Typegraph/Graph.vio
 Typegraph/Solver.vos Typegraph/Solver.vok Typegraph/Solver.required_vos: Typegraph/Solver.v Typegraph/Graph.vos
+Typegraph/SolverProofs.vo Typegraph/SolverProofs.glob Typegraph/SolverProofs.v.beautified Typegraph/SolverProofs.required_vo: Typegraph/SolverProofs.v Typegraph/Graph.vo Typegraph/Solver.vo Typegraph/Spec.vo Typegraph/SetLemmas.vo Typegraph/RfgProofs.vo Typegraph/PathProofs.vo Typegraph/SearchProofs.vo
+Typegraph/SolverProofs.vio: Typegraph/SolverProofs.v Typegraph/Graph.vio Typegraph/Solver.vio Typegraph/Spec.vio Typegraph/SetLemmas.vio Typegraph/RfgProofs.vio Typegraph/PathProofs.vio Typegraph/SearchProofs.vio
+Typegraph/SolverProofs.vos Typegraph/SolverProofs.vok Typegraph/SolverProofs.required_vos: Typegraph/SolverProofs.v Typegraph/Graph.vos Typegraph/Solver.vos Typegraph/Spec.vos Typegraph/SetLemmas.vos Typegraph/RfgProofs.vos Typegraph/PathProofs.vos Typegraph/SearchProofs.vos
 Typegraph/Spec.vo Typegraph/Spec.glob Typegraph/Spec.v.beautified Typegraph/Spec.required_vo: Typegraph/Spec.v Typegraph/Graph.vo Typegraph/Solver.vo
 Typegraph/Spec.vio: Typegraph/Spec.v Typegraph/Graph.vio Typegraph/Solver.vio
 Typegraph/Spec.vos Typegraph/Spec.vok Typegraph/Spec.required_vos: Typegraph/Spec.v Typegraph/Graph.vos Typegraph/Solver.vos
